@@ -362,6 +362,81 @@ fn eval_cli(ctx: &Ctx, case: &CliCase) -> Verdict {
     Ok(Pass::new().nontrivial(strictly && spec.values.iter().filter(|v| **v != 0.0).count() >= 2).label(if case.individuals { "-p" } else { "--project-shape" }))
 }
 
+// ---------------------------------------------------------------------------------------------
+// projecting after creation == projecting during creation when no genotype is missing
+
+#[derive(Clone, Debug, Serialize, Deserialize)]
+pub struct CreateProjectCase {
+    pub cs: crate::gen::callset::CallSet,
+    pub map: crate::gen::callset::MapSpec,
+    pub m: Vec<usize>,
+    pub precision: usize,
+}
+
+fn create_project_strategy() -> impl Strategy<Value = CreateProjectCase> {
+    use crate::gen::callset::{callset_strategy, make_selected_diploid, map_draw_strategy, resolve_map, GenParams, Gt};
+    let params = GenParams {
+        max_records: 25,
+        max_samples: 8,
+        odd_ploidy: false,
+        missing_weight: 0,
+        multi_weight: 0,
+        no_gt_per_256: 0,
+    };
+    (callset_strategy(params), map_draw_strategy(8), prop::collection::vec(any::<u16>(), 4), 3usize..=10).prop_map(|(mut cs, draw, draws, precision)| {
+        let n = cs.samples.len();
+        let all = vec![true; n];
+        make_selected_diploid(&mut cs, &all);
+        for r in cs.records.iter_mut() {
+            r.has_gt = true;
+            for (i, g) in r.gts.iter_mut().enumerate() {
+                if !g.is_call() {
+                    *g = Gt::diploid(Some((i % 2) as u8), Some(((i + r.pos as usize) % 2) as u8), false);
+                }
+            }
+        }
+        let map = resolve_map(&draw, n);
+        let m: Vec<usize> = map.pop_sizes().iter().enumerate().map(|(j, s)| pick_idx(draws[j], 2 * s + 1)).collect();
+        CreateProjectCase { cs, map, m, precision }
+    })
+}
+
+fn eval_create_project(ctx: &Ctx, case: &CreateProjectCase) -> Verdict {
+    use crate::props::common::{run_create, Container, CreateOpts, Projection, Transport};
+    let dir = ctx.worker_dir(crate::engine::worker_id());
+    let base = CreateOpts {
+        map: Some(case.map.clone()),
+        ..Default::default()
+    };
+    let (full, argv_full) = run_create(ctx, &dir, "c03c", &case.cs, &Container::Vcf, &base, Transport::Path);
+    ensure!(full.ok(), "`sfs {}` failed: {}", argv_full.join(" "), full.describe());
+    std::fs::write(dir.join("full.sfs"), &full.stdout).expect("write");
+    let shape: Vec<usize> = case.m.iter().map(|m| m + 1).collect();
+    let p = case.precision.to_string();
+    let after = cli::sfs(ctx, &["view", "--project-shape", &join(&shape), "--precision", &p, "full.sfs"], Input::Null, &dir);
+    let after = cli::expect_spectrum(&after, "`sfs view --project-shape` after creation")?;
+    let during_opts = CreateOpts {
+        project: Some(Projection { m: case.m.clone(), individuals: false }),
+        precision: Some(case.precision),
+        ..base.clone()
+    };
+    let (during, argv) = run_create(ctx, &dir, "c03c", &case.cs, &Container::Vcf, &during_opts, Transport::Path);
+    let during = cli::expect_spectrum(&during, &format!("`sfs {}`", argv.join(" ")))?;
+    ensure!(after.shape == during.shape, "shapes differ: after creation {:?}, during creation {:?}", after.shape, during.shape);
+    let tol = 10f64.powi(-(case.precision as i32)) * 1.01 + 1e-9 * (1.0 + case.cs.records.len() as f64);
+    for (i, (a, b)) in after.values.iter().zip(&during.values).enumerate() {
+        ensure!(
+            (a - b).abs() <= tol,
+            "no genotype is missing, yet projecting after creation and during creation differ at cell {i}: {a} vs {b} (`sfs {}`; target chromosomes {:?}, population sizes {:?})",
+            argv.join(" "),
+            case.m,
+            case.map.pop_sizes()
+        );
+    }
+    let strictly = case.m.iter().zip(case.map.pop_sizes()).any(|(m, n)| *m < 2 * n);
+    Ok(Pass::new().nontrivial(strictly && case.cs.records.len() >= 2).label(format!("populations={}", case.m.len())))
+}
+
 pub fn check(ctx: &Ctx) -> Check {
     let n1 = ctx.tier.pick(48usize, 120);
     let (l2, l3, l4) = ctx.tier.pick((5usize, 4usize, 3usize), (7, 5, 3));
@@ -417,6 +492,13 @@ pub fn check(ctx: &Ctx) -> Check {
             cases: ctx.tier.pick(200, 2000),
             strategy: Box::new(|| cli_strategy().boxed()),
             eval: Box::new(eval_cli),
+        }),
+        Box::new(RandomPart {
+            name: "create-then-project",
+            rule: "call sets without missing data x maps x admissible targets: `create | view --project-shape t` must agree with `create --project-shape t` to the printed precision (3..10 decimals); non-trivial = a strictly smaller target and >=2 records",
+            cases: ctx.tier.pick(400, 4000),
+            strategy: Box::new(|| create_project_strategy().boxed()),
+            eval: Box::new(eval_create_project),
         }),
     ];
     Check {
